@@ -390,6 +390,31 @@ func c10(r *core.Run) {
 						}
 						n++
 						fn := iff.Parent()
+						if fn != chg && fn.Signature.Results().Len() > 0 {
+							// a helper that hands the transformed side back (nil when the transformer refused it):
+							// returning is how it reports the side; it cannot end the change handler
+							nilOnErr := true
+							for _, ret := range core.Returns(fn) {
+								onErr := false
+								for _, ed := range dominatingEdges(ret) {
+									if ed.If == iff && ed.Succ == errSucc {
+										onErr = true
+									}
+								}
+								if !onErr {
+									continue
+								}
+								for _, rv := range ret.Results {
+									if _, isIface := rv.Type().Underlying().(*types.Interface); isIface && types.TypeString(rv.Type(), nil) != "error" {
+										if c, isC := rv.(*ssa.Const); !isC || !c.IsNil() {
+											nilOnErr = false
+										}
+									}
+								}
+							}
+							r.Check(nilOnErr, "T2", core.FuncName(fn), fmt.Sprintf("transform-error-makes-the-side-missing#%d", n), p.InstrPos(iff), "the transform helper returns a missing (nil) side on the error edge; the change handler classifies the change", "the transform helper returns something else than a missing side when the transformer refuses the value")
+							continue
+						}
 						bad := ""
 						for _, ret := range core.Returns(fn) {
 							onErr := false
